@@ -34,6 +34,15 @@ def rule_r1(chk, db):
                     consts.add(int(o["v"]))
         else:
             ordered_on_bytes.append(b.loc(bi))
+    # `match p { b'*' => .., b'?' => .., _ => .. }` compiles to a switch on the byte
+    for bi in b.live_blocks():
+        t = b.blocks[bi]["term"]
+        if t["k"] == "switch":
+            p = flow.op_place(t["discr"])
+            if p is not None and not p["proj"] and b.locals[p["l"]] == "u8":
+                n += 1
+                for v, _ in t["targets"]:
+                    consts.add(int(v))
     chk.floor("R1", n, 2, "byte comparisons in match_pattern")
     chk.verdict(consts == {42, 63}, "R1", "wildcard-alphabet", b.loc(), "pattern bytes are compared with the constants %s (documented wildcards: `*` (42) and `?` (63) only)" % sorted(consts))
     chk.verdict(not ordered_on_bytes, "R1", "bytes-only-compared-for-equality", ordered_on_bytes[0] if ordered_on_bytes else b.loc(),
@@ -285,8 +294,8 @@ def serde_attrs_from_source(adt):
 def rule_r6(chk, db):
     n = 0
     for name, adt in sorted(db.adts.items()):
-        if not name.startswith(MODEL):
-            continue
+        if not name.startswith(MODEL) or short(name).startswith("__") or "::_::" in name:
+            continue    # derive-generated helper types share the span of the item they were derived for
         attrs = serde_attrs_from_source(adt)
         if attrs is None:
             chk.anchor_missing("R6", "cannot read the source of %s" % name)
